@@ -170,6 +170,36 @@ def check_sequences(env, acc):
                 if err > 1e-8 * max(1.0, math.sqrt(s2)) and err / math.sqrt(max(s2, 1e-300)) > 1e-6:
                     acc.violation("not_the_named_gate", cc, {"relative_err": err / math.sqrt(max(s2, 1e-300)), "s2": s2})
                 acc.state("seq-register", cc["gate"])
+    # library gates wrapped by the user in named blocks (a herald-free circuit holding groups), placed on a register at
+    # an offset, before or after a heralded gate: each block acts on the qubit it was addressed to
+    for blocks in ((("H", ()), ("S", ())), (("Ry", (1.1,)),), (("X", ()), ("T", ()), ("SX", ()))):
+        for q in (0, 1, 2):
+            for pre in (None, "CZ_Heralded", "CNOT"):
+                acc.tick("executions"); acc.tick("transitions", len(blocks) + 1)
+                sub = lw.Circuit(2)
+                m1 = np.eye(2, dtype=complex)
+                for nm, a in blocks:
+                    sub.add(getattr(qubit, nm)(*a), 0, group=True, name="user block " + nm)
+                    m1 = rq.single(nm, *a) @ m1
+                host = lw.Circuit(6)
+                want = np.eye(8, dtype=complex)
+                if pre == "CZ_Heralded":
+                    host.add(qubit.CZ_Heralded(), 0); want = rq.controlled_z(3, (0, 1)) @ want
+                elif pre == "CNOT":
+                    host.add(qubit.CNOT(), 2); want = rq.controlled_x(3, (1,), 2) @ want
+                host.add(sub, 2 * q)
+                want = rq.kron(*[m1 if k == q else np.eye(2) for k in range(3)]) @ want
+                cc = {"gate": "blocks %s on qubit %d after %s" % ("+".join(b[0] for b in blocks), q, pre), "seed": env.seed,
+                      "scenario": "sequence"}
+                try:
+                    A, leak, _ = rq.circuit_gate_matrix(host, 3)
+                    s2, err = rq.compare_up_to_scalar(A, want)
+                except Exception as e:  # noqa: BLE001
+                    acc.violation("gate_constructor_raises", cc, {"error": repr(e)})
+                    continue
+                if err > 1e-8 * max(1.0, math.sqrt(s2)) and err / math.sqrt(max(s2, 1e-300)) > 1e-6:
+                    acc.violation("not_the_named_gate", cc, {"relative_err": err / math.sqrt(max(s2, 1e-300)), "s2": s2})
+                acc.state("seq-blocks", cc["gate"])
     chains = [(("H", ()), ("Z", ()), ("H", ())), (("Rz", (0.4,)), ("Ry", (1.1,)), ("Rz", (0.4,))), (("S", ()), ("H", ()), ("S", ())),
               (("H", ()), ("S", ()), ("T", ())), (("Rx", (0.7,)), ("Rz", (1.1,)), ("H", ())), (("X", ()), ("S", ()), ("SX", ()))]
     for chain in chains:
